@@ -276,8 +276,6 @@ def model_leg(scn, inputs, refs, holders):
         out["compared"] += 1
         rk = ref_kind(ref).split(":")[0]
         for lf in d["sat"]:
-            if lf["raw"] == 5:
-                continue  # early invalid-jump leaf: excluded from C01_sound (known finding)
             if lf["kind"] != rk or (rk in ("ok", "revert") and lf["ret"] != ref["ret"]):
                 out["model_vs_ref"].append({"input": inp, "model": {k: (v.hex() if isinstance(v, bytes) else v) for k, v in lf.items()}, "reference": rk})
         hm = sorted((k.split(":")[0], rb.hex()) for k, rb in hold)
